@@ -2,6 +2,7 @@ package main
 
 import (
 	"fmt"
+	"regexp"
 	"strings"
 	"unicode/utf8"
 
@@ -120,6 +121,11 @@ func init() {
 	})
 }
 
+// rxGlued: a token with the affixes the generator glues to it across inline boundaries.
+var rxGlued = regexp.MustCompile(`^(un)?w\d+q(s|ing|ed|'s)?$`)
+
+var rxAffix = regexp.MustCompile(`(s|ing|ed|'s)$`)
+
 var fillerSet = func() map[string]bool {
 	m := map[string]bool{}
 	for _, f := range nonASCIIFillers {
@@ -134,15 +140,19 @@ var fillerSet = func() map[string]bool {
 // strayWord returns the first word of s that is neither a token nor one of
 // the filler words the generator uses ("" if none).
 func strayWord(s string) string {
-	for _, w := range strings.Fields(s) {
-		if fillerSet[w] {
-			continue
-		}
-		w = strings.Trim(w, ".,;:!?()[]\"'*~-\u2014\u2022\u2020")
+	okWord := func(w string) bool {
 		if w == "" || fillerSet[w] || fillerSet[w+"\u2020"] {
-			continue
+			return true
 		}
-		if m := rxTok.FindString(w); m == w {
+		if m := rxTok.FindString(w); m == w || rxGlued.MatchString(w) {
+			return true
+		}
+		// a filler word with a glued affix
+		core := rxAffix.ReplaceAllString(w, "")
+		return core != w && (fillerSet[core] || fillerSet[strings.TrimPrefix(core, "un")]) || fillerSet[strings.TrimPrefix(w, "un")]
+	}
+	for _, w := range strings.Fields(s) {
+		if okWord(w) || okWord(strings.Trim(w, ".,;:!?()[]\"'*~-\u2014\u2022\u2020")) {
 			continue
 		}
 		return w
@@ -154,6 +164,7 @@ func runC02(c *Ctx, idx int) {
 	prof := fullProfile()
 	prof.Skipped = false
 	prof.NonASCII = idx%2 == 1 // odd cases are delivered as parsed trees
+	prof.Glue = idx%3 == 0
 	ar, ok := c.runArticle(idx, prof, nil)
 	if !ok {
 		return
@@ -168,14 +179,7 @@ func runC02(c *Ctx, idx int) {
 		c.Violation("invented-word:text", fmt.Sprintf("Result.Text contains the word %q, which is not a word of the source", w), ar.witness(map[string]any{"word": w}))
 		return
 	}
-	var htmlText strings.Builder
-	walk(ar.Res.Node, func(n *html.Node) bool {
-		if n.Type == html.TextNode {
-			htmlText.WriteString(" " + n.Data + " ")
-		}
-		return true
-	})
-	if w := strayWord(htmlText.String()); w != "" {
+	if w := strayWord(strings.Join(wordsOfTree(ar.Res.Node, nil), " ")); w != "" {
 		c.Violation("invented-word:html", fmt.Sprintf("the distilled HTML contains the word %q, which is not a word of the source", w), ar.witness(map[string]any{"word": w}))
 		return
 	}
